@@ -8,7 +8,7 @@ func SArgs() *Supergraph {
 	args := []Arg{
 		{Name: "s", Type: "String"}, {Name: "i", Type: "Int"}, {Name: "f", Type: "Float"}, {Name: "b", Type: "Boolean"},
 		{Name: "e", Type: "Color"}, {Name: "id", Type: "ID"}, {Name: "j", Type: "J"},
-		{Name: "l", Type: "[String]"}, {Name: "ll", Type: "[[Int]]"}, {Name: "o", Type: "In"}, {Name: "lo", Type: "[In!]"},
+		{Name: "l", Type: "[String]"}, {Name: "ll", Type: "[[Int]]"}, {Name: "o", Type: "In"}, {Name: "lo", Type: "[In!]"}, {Name: "lon", Type: "[In]"},
 	}
 	return &Supergraph{Name: "S-args", Types: []Type{
 		{Name: "Query", Kind: "object", Fields: []Field{
